@@ -198,11 +198,12 @@ func (sw *SprayAndWait) ReportFailure(bp BundleDescriptor, sender cla.Convergenc
 	}
 	verifhook.At("routing.spray.reportfailure")
 
-	metadata.remainingCopies = metadata.remainingCopies + 1
-
+	// Only a peer which was selected by SenderForBundle has taken a copy, which is given back. Without being asked,
+	// a bundle is also sent to its directly connected destination.
 	for i := 0; i < len(metadata.sent); i++ {
 		if metadata.sent[i] == sender.GetPeerEndpointID() {
 			metadata.sent = append(metadata.sent[:i], metadata.sent[i+1:]...)
+			metadata.remainingCopies = metadata.remainingCopies + 1
 			break
 		}
 	}
@@ -426,12 +427,12 @@ func (bs *BinarySpray) ReportFailure(bp BundleDescriptor, sender cla.Convergence
 		return
 	}
 	verifhook.At("routing.binaryspray.reportfailure")
-	metadata.remainingCopies = metadata.remainingCopies + binarySprayBlock.RemainingCopies()
-	binarySprayBlock.SetCopies(metadata.remainingCopies)
-
+	// Only a peer which was selected by SenderForBundle has taken copies, which are given back.
 	for i := 0; i < len(metadata.sent); i++ {
 		if metadata.sent[i] == sender.GetPeerEndpointID() {
 			metadata.sent = append(metadata.sent[:i], metadata.sent[i+1:]...)
+			metadata.remainingCopies = metadata.remainingCopies + binarySprayBlock.RemainingCopies()
+			binarySprayBlock.SetCopies(metadata.remainingCopies)
 			break
 		}
 	}
